@@ -528,11 +528,15 @@ func (p *Parser) parseComponentStmt() ast.Statement {
 		p.nextToken() // skip ")"
 		stmt.Slots = p.parseSlots()
 		hasSlots = true
-	} else if p.peekTokenIs(token.HTML) && isWhitespace(p.peekToken.Literal) && p.tokenAfterPeekIs(token.SLOT) {
+	} else if n := p.whitespaceBeforeSlot(); n > 0 {
 		// whitespace between ")" and the first slot is not a part of
 		// the page; whitespace that is not followed by a slot is text
 		p.nextToken() // skip ")"
-		p.nextToken() // skip whitespace
+
+		for ; n > 0; n-- {
+			p.nextToken() // skip whitespace
+		}
+
 		stmt.Slots = p.parseSlots()
 		hasSlots = true
 	}
@@ -553,12 +557,28 @@ func (p *Parser) parseComponentStmt() ast.Statement {
 	return stmt
 }
 
-// tokenAfterPeekIs looks at the token that follows the
-// peek token without moving the parser or the lexer
-func (p *Parser) tokenAfterPeekIs(tok token.TokenType) bool {
+// whitespaceBeforeSlot returns the number of whitespace tokens, starting
+// with the peek token, that stand before a "@slot", or 0 when something
+// else follows. A comment splits whitespace into several tokens. It looks
+// ahead without moving the parser or the lexer
+func (p *Parser) whitespaceBeforeSlot() int {
+	if !p.peekTokenIs(token.HTML) || !isWhitespace(p.peekToken.Literal) {
+		return 0
+	}
+
 	ahead := *p.l
 
-	return ahead.NextToken().Type == tok
+	for n := 1; ; n++ {
+		tok := ahead.NextToken()
+
+		if tok.Type == token.SLOT {
+			return n
+		}
+
+		if tok.Type != token.HTML || !isWhitespace(tok.Literal) {
+			return 0
+		}
+	}
 }
 
 func (p *Parser) parseAliasPathShortcut(shortenTo string) string {
